@@ -164,6 +164,8 @@ def check_lim(eng, run):
             seplens = {k for k, vs in assignments(owner).items() for v in vs if isinstance(v, ast.Call) and getattr(v.func, "id", "") == "len" and v.args and dotted(v.args[0]) in seps_of(owner)}
             for s_ in n.body:
                 v = s_.value if isinstance(s_, (ast.Assign, ast.Return)) else None
+                if isinstance(v, ast.Call) and getattr(v.func, "id", "") in ("bytes", "memoryview") and len(v.args) == 1:
+                    v = v.args[0]  # `return bytes(rest[seplen:])`
                 if isinstance(v, ast.Subscript) and isinstance(v.slice, ast.Slice) and dotted(v.slice.lower) in seplens and v.slice.upper is None:
                     fast = True
     consumed = next((a.arg for a in fn.params() if "consumed" in a.arg), "consumed")
